@@ -50,7 +50,7 @@ def _build(cfg):
         bus.memory_map = MemoryMap(addr_width=s["aw"] + _log2(s["dw"] // s["gran"]), data_width=s["gran"])
         if s.get("align_to") is not None:
             dec.align_to(s["align_to"])
-        dec.add(bus, name=(f"w{i}" if s.get("named") else None), addr=s.get("addr"), sparse=s["sparse"])
+        bus._verif_range = dec.add(bus, name=(f"w{i}" if s.get("named") else None), addr=s.get("addr"), sparse=s["sparse"])
         subs.append(bus)
         if cfg.get("staged") == i + 1:
             # the decoder is elaborated (e.g. a partial system is simulated) and extended afterwards
@@ -116,10 +116,9 @@ def queries(h, cfg):
     gbits = _log2(cfg["dw"] // cfg["gran"])
 
     def layout(h):
-        wins = {id(w): (start, stop) for w, name, (start, stop, ratio) in h.dec.bus.memory_map.windows()}
         lay = []
         for sub in h.subs:
-            start, stop = wins[id(sub.memory_map)]
+            start, stop = sub._verif_range[0], sub._verif_range[1]        # what add() promised
             core_stop = start + (1 << sub.memory_map.addr_width)
             lay.append((sub, start >> gbits, -(-core_stop >> gbits) if False else (core_stop >> gbits), -((-stop) >> gbits)))
         return lay
@@ -192,9 +191,26 @@ def queries(h, cfg):
             Q("responses-of-selected-only", 1, responses, twin=twin2)]
 
 
+def _windows_agree(cfg):
+    dec, subs = _build(cfg)
+    rep = {id(w): (s_, e_, r_) for w, n_, (s_, e_, r_) in dec.bus.memory_map.windows()}
+    return all(rep.get(id(sub.memory_map)) == tuple(sub._verif_range) for sub in subs) and len(rep) == len(subs)
+
+
 def check(cfg, out, stats):
+    if not _windows_agree(cfg):
+        from ..bmc import mark_violation
+        from ..e1 import cfg_key
+        mark_violation("windows-disagree")
+        out.violations.append({"key": f"windows-disagree@{cfg_key(cfg)}",
+                               "what": f"C07 the decoder's memory map does not report the windows its add() calls returned "
+                                       f"({cfg_key(cfg)})", "query": "windows", "cfg": cfg, "stimulus": [], "prefix": 0,
+                               "k": 0, "detail": {}})
+        return
     run_queries(__import__(__name__, fromlist=["x"]), cfg, out, stats, cosim_cycles=8)
 
 
 def replay(v):
+    if v["query"] == "windows":
+        return not _windows_agree(v["cfg"])
     return _replay(__import__(__name__, fromlist=["x"]), v)
